@@ -19,6 +19,10 @@ hmod!(pub(crate) c08, "c08.rs");
 #[cfg(not(feature = "shuttle"))]
 hmod!(pub(crate) c08b, "c08b.rs");
 #[cfg(not(feature = "shuttle"))]
+hmod!(pub(crate) c09, "c09.rs");
+#[cfg(not(feature = "shuttle"))]
+hmod!(pub(crate) c09t, "c09t.rs");
+#[cfg(not(feature = "shuttle"))]
 hmod!(pub(crate) c15, "c15.rs");
 #[cfg(not(feature = "shuttle"))]
 hmod!(pub(crate) c17, "c17.rs");
